@@ -190,6 +190,7 @@ def _plan(tier):
         P.append(("composite", dict(n=4, k=3, same_object=False, preselect=True, check=False), R))
         P.append(("composite", dict(n=4, k=3, same_object=False, preselect=False, check=True), R))
         P.append(("single", dict(n=4, preselect=True, check=True, rowwise=False), R))
+    P.append(("single", dict(n=3, preselect=False, check=False, rowwise=False), (), "other-atoms-untouched"))
     return P
 
 
